@@ -301,7 +301,13 @@ def purity_programs():
         progs.append(f"field_contains(r, ['{f}'], ['a'], nocase=False)")
         progs.append(f"r.{f} == r.{f}")
         progs.append(f"any(lower(x) == 'alpha' for x in [r.{f}])")
-    progs += ["str(r)", "repr(r)", "name(r)", "names(r)", "fields('string')", "has_field(r, 'tags')", "field_regex(r, ['s'], 'i')",
+        # operators applied to the field value itself (an operator table entry that works in place would modify the record)
+        progs.append(f"r.{f} + r.{f} == 1")
+        progs.append(f"r.{f} * 2 == 1")
+        progs.append(f"(r.{f} | r.{f}) == 1 or (r.{f} & r.{f}) == 1")
+        progs.append(f"r.{f} % 3 == 1")
+    progs += ["'c' in r.tags + ['c']", "r.tags + ['c'] == ['Alpha', 'BETA', 'c']", "r.sl + r.tags == []", "r.tags * 2 == []", "r.dl + [{'x': 1}] == []", "r.rr.names + ['x'] == []", "r.by + r.by == r.by",
+              "any(t + ['x'] for t in [r.tags, r.sl])", "r.tags + r.tags + r.tags == []", "str(r)", "repr(r)", "name(r)", "names(r)", "fields('string')", "has_field(r, 'tags')", "field_regex(r, ['s'], 'i')",
               "lower(r.rr.names) == ['in', 'ner']", "upper(r.tags) == ['ALPHA', 'BETA']", "field_contains(r, Type.string, ['mixed'])",
               "any(lower(t) == 'alpha' for t in r.tags)", "all(upper(t) for t in r.sl)", "lower(r.dl) == r.dl", "Type.string == 'MiXed'", "'Alpha' in Type.stringlist"]
     return progs
